@@ -291,6 +291,10 @@ class Fn:
                 while isinstance(c, dict) and c.get('k') == 'bin' and c['op'] in ('&&', '||') and not c.get('val'):
                     c = c['r']
                 v = const_value(c) if isinstance(strip(c), dict) and strip(c).get('k') in ('bool', 'int') else None
+                if v is None and isinstance(strip(c), dict) and strip(c).get('k') in ('null', 'nullptr'):
+                    v = 0           # `if (nullptr)` after a helper's `return NULL` was threaded into the branch
+                if v is None and isinstance(strip(c), dict) and strip(c).get('k') == 'str':
+                    v = 1           # a string literal is a non-null pointer
                 if isinstance(strip(c), dict) and strip(c).get('k') == 'un' and strip(c)['op'] == '!':
                     inner = strip(strip(c)['e'])
                     if isinstance(inner, dict) and inner.get('k') in ('bool', 'int'):
@@ -1107,7 +1111,11 @@ def _edge_facts_uncached(fn, bid, idx):
                         if dstr(atom) not in [x[0] for x in out]:
                             out.append((dstr(atom), pol, atom))
                 return out
-            return []       # the other side only tells a disjunction: no usable fact
+            # the other side only tells a disjunction: the composite itself, with its polarity
+            at, ap = norm_cond(fn.prog, c)
+            if isinstance(strip(at), dict) and strip(at).get('k') == 'bin':
+                return [(dstr(at), ap if idx == 0 else (not ap), at)]
+            return []
         c = fn.eff_cond(bid)
         if c is None:
             return []
@@ -1710,8 +1718,13 @@ class Program:
 # ------------------------------------------------------------------------------------------------
 
 def fact_holds(facts, pred, polarity=None):
-    """Is there a fact whose atom satisfies pred (and has the given polarity)?"""
+    """Is there a fact whose atom satisfies pred (and has the given polarity)?  A composite that only states a
+    disjunction - `a && b` known false, `a || b` known true - says nothing about any one of its parts and is not
+    offered to pred (a conjunction's parts are facts of their own)."""
     for key, (pol, atom) in facts.items():
+        a = strip(atom)
+        if isinstance(a, dict) and a.get('k') == 'bin' and a.get('op') in ('&&', '||') and (a['op'] == '&&') != bool(pol):
+            continue
         if (polarity is None or pol == polarity) and pred(atom):
             return True
     return False
